@@ -4,6 +4,7 @@ import (
 	"errors"
 	"fmt"
 	"strconv"
+	"unsafe"
 
 	typ "gopkg.in/typ.v4"
 	"pgregory.net/rapid"
@@ -241,6 +242,91 @@ func derefCheck[P ~*V, V comparable](name string, isNil bool, v V) string {
 	return ""
 }
 
+type isNilEnt struct {
+	typ, desc, class string
+	call            func() (got, want bool)
+}
+
+// isNilAt evaluates both sides at the interface type T: the helper and the language's own comparison with nil.
+func isNilAt[T any](typName, desc, class string, v T) isNilEnt {
+	return isNilEnt{typName, desc, class, func() (bool, bool) { return typ.IsNil(v), any(v) == nil }}
+}
+
+const (
+	clsNil     = "nil-interface"
+	clsValue   = "non-nil-interface"
+	clsNilPtr  = "interface-holding-nil-pointer"
+	clsNilKind = "interface-holding-nil-map/slice/func/chan"
+)
+
+// isNilTable lists the values IsNil is tried on for one interface type. Note that `any(v) == nil` inside isNilAt is
+// the same predicate as `v == nil` at type T (converting a nil interface to any gives a nil any, a non-nil one keeps its dynamic type).
+func isNilTable(c Util) []isNilEnt {
+	var np *int64
+	cell := c.int(1)
+	switch c.Type {
+	case "any":
+		var e error
+		var pe *ptrErr
+		return []isNilEnt{
+			isNilAt[any]("any", "nil", clsNil, nil),
+			isNilAt[any]("any", "any(error(nil))", clsNil, e),
+			isNilAt[any]("any", fmt.Sprintf("int64(%d)", c.int(1)), clsValue, c.int(1)),
+			isNilAt[any]("any", fmt.Sprintf("%q", c.str(0)), clsValue, c.str(0)),
+			isNilAt[any]("any", "pair{...}", clsValue, pair{c.int(1), c.str(0)}),
+			isNilAt[any]("any", "pointer to an int64", clsValue, &cell),
+			isNilAt[any]("any", "pointer to a nil *int64", clsValue, &np),
+			isNilAt[any]("any", "(*int64)(nil)", clsNilPtr, (*int64)(nil)),
+			isNilAt[any]("any", "(*pair)(nil)", clsNilPtr, (*pair)(nil)),
+			isNilAt[any]("any", "(*struct{})(nil)", clsNilPtr, (*struct{})(nil)),
+			isNilAt[any]("any", "(**int64)(nil)", clsNilPtr, (**int64)(nil)),
+			isNilAt[any]("any", "intPtr(nil) (named pointer type)", clsNilPtr, intPtr(nil)),
+			isNilAt[any]("any", "(*ptrErr)(nil) (pointer type with methods)", clsNilPtr, pe),
+			isNilAt[any]("any", "any(error((*ptrErr)(nil)))", clsNilPtr, error(pe)),
+			isNilAt[any]("any", "(*bigArr)(nil)", clsNilPtr, (*bigArr)(nil)),
+			isNilAt[any]("any", "unsafe.Pointer(nil)", clsNilKind, unsafe.Pointer(nil)),
+			isNilAt[any]("any", "[]int64(nil)", clsNilKind, []int64(nil)),
+			isNilAt[any]("any", "map[string]int64(nil)", clsNilKind, map[string]int64(nil)),
+			isNilAt[any]("any", "(func())(nil)", clsNilKind, (func())(nil)),
+			isNilAt[any]("any", "(chan int)(nil)", clsNilKind, (chan int)(nil)),
+		}
+	case "error":
+		return []isNilEnt{
+			isNilAt[error]("error", "nil", clsNil, nil),
+			isNilAt[error]("error", fmt.Sprintf("errors.New(%q)", c.str(0)), clsValue, errors.New(c.str(0))),
+			isNilAt[error]("error", "liarErr{} (zero-size)", clsValue, liarErr{}),
+			isNilAt[error]("error", "&ptrErr{...}", clsValue, &ptrErr{c.str(0)}),
+			isNilAt[error]("error", "(*ptrErr)(nil)", clsNilPtr, (*ptrErr)(nil)),
+			isNilAt[error]("error", "mapErr(nil)", clsNilKind, mapErr(nil)),
+			isNilAt[error]("error", "sliceErr(nil)", clsNilKind, sliceErr(nil)),
+			isNilAt[error]("error", "funcErr(nil)", clsNilKind, funcErr(nil)),
+			isNilAt[error]("error", "chanErr(nil)", clsNilKind, chanErr(nil)),
+		}
+	case "stringer":
+		return []isNilEnt{
+			isNilAt[fmt.Stringer]("fmt.Stringer", "nil", clsNil, nil),
+			isNilAt[fmt.Stringer]("fmt.Stringer", "stamp{...}", clsValue, stamp{c.int(1), 0}),
+			isNilAt[fmt.Stringer]("fmt.Stringer", `nilText{} (prints "<nil>")`, clsValue, nilText{}),
+			isNilAt[fmt.Stringer]("fmt.Stringer", "&ptrErr{...}", clsValue, &ptrErr{c.str(0)}),
+			isNilAt[fmt.Stringer]("fmt.Stringer", "(*ptrErr)(nil)", clsNilPtr, (*ptrErr)(nil)),
+			isNilAt[fmt.Stringer]("fmt.Stringer", "(*stamp)(nil) (value-receiver methods promoted to the pointer)", clsNilPtr, (*stamp)(nil)),
+			isNilAt[fmt.Stringer]("fmt.Stringer", "mapErr(nil)", clsNilKind, mapErr(nil)),
+			isNilAt[fmt.Stringer]("fmt.Stringer", "sliceErr(nil)", clsNilKind, sliceErr(nil)),
+			isNilAt[fmt.Stringer]("fmt.Stringer", "chanErr(nil)", clsNilKind, chanErr(nil)),
+		}
+	case "zeroer":
+		return []isNilEnt{
+			isNilAt[zeroer]("interface{ IsZero() bool }", "nil", clsNil, nil),
+			isNilAt[zeroer]("interface{ IsZero() bool }", "stamp{} (IsZero() true)", clsValue, stamp{}),
+			isNilAt[zeroer]("interface{ IsZero() bool }", "odd{0}", clsValue, odd{}),
+			isNilAt[zeroer]("interface{ IsZero() bool }", "(*ptrErr)(nil) (nil-safe IsZero() true)", clsNilPtr, (*ptrErr)(nil)),
+			isNilAt[zeroer]("interface{ IsZero() bool }", "(*stamp)(nil) (IsZero would panic if called)", clsNilPtr, (*stamp)(nil)),
+			isNilAt[zeroer]("interface{ IsZero() bool }", "(*ptrRecv)(nil) (IsZero would panic if called)", clsNilPtr, (*ptrRecv)(nil)),
+		}
+	}
+	return nil
+}
+
 var utilTypes = map[string][]string{
 	"Coal":      {"int", "string", "float", "pair", "ptr", "iface"},
 	"Zero":      {"int", "string", "float", "pair", "ptr", "iface", "stamp", "slice", "map", "array", "func"},
@@ -250,7 +336,7 @@ var utilTypes = map[string][]string{
 	"TernCast":  {"int", "string", "stringer", "any"},
 	"Ref":       {"int", "string", "pair", "ptr", "iface"},
 	"DerefZero": {"int", "intPtr", "string", "pair", "ptr"},
-	"IsNil":     {"any", "error", "stringer"},
+	"IsNil":     {"any", "any", "error", "stringer", "zeroer"},
 }
 
 var utilFns = []string{"Coal", "Coal", "Coal", "Zero", "ZeroOf", "IsZero", "IsZero", "Tern", "TernCast", "Ref", "DerefZero", "IsNil"}
@@ -589,50 +675,21 @@ func RunUtil(c Util) pbt.Outcome {
 		}
 	case "IsNil":
 		out.NonTrivial = true
-		// interface-typed values only; a non-nil interface holding a nil pointer is not generated (outside the statement)
-		code := mod(c.int(0), 5)
-		var want bool
-		var got bool
-		desc := ""
-		switch c.Type {
-		case "any":
-			var v any
-			switch code {
-			case 0:
-				v, want, desc = nil, true, "any(nil)"
-			case 1:
-				v, want, desc = c.int(1), false, fmt.Sprintf("any(int64(%d))", c.int(1))
-			case 2:
-				v, want, desc = c.str(0), false, fmt.Sprintf("any(%q)", c.str(0))
-			case 3:
-				var e error
-				v, want, desc = e, true, "any(error(nil))"
-			default:
-				v, want, desc = pair{c.int(1), c.str(0)}, false, "any(pair{...})"
-			}
-			got = typ.IsNil(v)
-		case "error":
-			var v error
-			want, desc = true, "error(nil)"
-			if code != 0 {
-				v, want, desc = errors.New(c.str(0)), false, fmt.Sprintf("error(errors.New(%q))", c.str(0))
-			}
-			got = typ.IsNil(v)
-		case "stringer":
-			var v fmt.Stringer
-			want, desc = true, "fmt.Stringer(nil)"
-			if code != 0 {
-				v, want, desc = stamp{c.int(1), 0}, false, "fmt.Stringer(stamp{...})"
-			}
-			got = typ.IsNil(v)
+		// interface-typed T only. By definition IsNil(v) is v == nil evaluated at the interface type: true for the nil
+		// interface alone. An interface that holds a nil pointer (map, slice, func, channel) has a dynamic type and
+		// is therefore not nil: err != nil is true for it and its methods can be called.
+		tab := isNilTable(c)
+		if len(tab) == 0 {
+			return malformed()
 		}
-		if want {
-			out.Labels = append(out.Labels, "isnil:nil-interface")
-		} else {
-			out.Labels = append(out.Labels, "isnil:non-nil-interface")
+		x := tab[mod(c.int(0), int64(len(tab)))]
+		got, want := x.call()
+		out.Labels = append(out.Labels, "isnil:"+x.class)
+		if want != (x.class == clsNil) {
+			return pbt.Fail("harness error: table of %s: %s is classed %s but == nil is %v", x.typ, x.desc, x.class, want)
 		}
 		if got != want {
-			msg = fmt.Sprintf("typ.IsNil(%s) = %v, want %v", desc, got, want)
+			msg = fmt.Sprintf("typ.IsNil[%s](%s) = %v, want %v (= the result of comparing the interface value with nil)", x.typ, x.desc, got, want)
 		}
 	}
 	if msg != "" {
@@ -659,6 +716,8 @@ func genUtil(t *rapid.T) Util {
 	switch fn {
 	case "IsZero", "Tern", "TernCast", "DerefZero":
 		c.Cond = rapid.Bool().Draw(t, "cond")
+	case "IsNil":
+		c.Ints[0] = int64(rapid.IntRange(0, 59).Draw(t, "value")) // index into the value table of the interface type (modulo its size)
 	}
 	return c
 }
